@@ -2,7 +2,7 @@
 # tools/recheck_seeds.sh [seed-id ...]  — run the owning check against kept seeds again
 # (git -C /repo apply, ./check <id> quick, git -C /repo checkout -- .); evidence is restored.
 cd /verif
-SEEDS="$@"; [ -z "$SEEDS" ] && SEEDS=$(ls seeded)
+SEEDS="$@"; [ -z "$SEEDS" ] && SEEDS=$(ls seeded | grep -E "^C[0-9]+-[0-9]+$")
 for sid in $SEEDS; do
     prop=${sid%%-*}
     [ -z "$(git -C /repo status --porcelain)" ] || { echo "/repo not clean"; exit 2; }
